@@ -3,5 +3,5 @@
 cd "$(dirname "$0")/.."
 TIER=${1:-quick}; JOBS=${2:-4}
 IDS=$(python3 -c "import json;print(' '.join(c['property_id'] for c in json.load(open('MANIFEST.json'))['checks']))")
-mkdir -p /tmp/runall
-echo $IDS | tr ' ' '\n' | xargs -P "$JOBS" -I{} sh -c "./check {} --tier $TIER > /tmp/runall/{}.log 2>&1; echo {} rc=\$? \$(grep -c VIOLATION /tmp/runall/{}.log) violations, \$(grep -o 'wall=[0-9.]*s' /tmp/runall/{}.log)"
+D=${RUNALL_DIR:-/tmp/runall}; mkdir -p $D
+echo $IDS | tr ' ' '\n' | xargs -P "$JOBS" -I{} sh -c "./check {} --tier $TIER > $D/{}.log 2>&1; echo {} rc=\$? \$(grep -c VIOLATION $D/{}.log) violations, \$(grep -o 'wall=[0-9.]*s' $D/{}.log)"
